@@ -9,15 +9,15 @@ W=/tmp/seed/$ID; OUT=/verif/seeded/$NAME
 LOG=$(mktemp)
 {
 echo "== worktree diff equals patch.diff?"; (cd $W && git diff -- src | diff -q - out/patch.diff >/dev/null && echo same || echo "differs (checking that patch applies to clean tree instead)")
-cd $W && git stash -q && git apply --check out/patch.diff && echo "patch applies to clean checkout" ; git stash pop -q
+cd $W && git apply -R out/patch.diff && git apply --check out/patch.diff && echo "patch applies to clean checkout" ; git apply out/patch.diff
 echo "== test suite with the change"; cmake --build $W/_build -j16 2>&1 | tail -1; ctest --test-dir $W/_build -j16 2>&1 | grep -E "tests passed|tests failed"
 CMD=$(python3 -c "import json;print(json.load(open('$W/out/meta.json')).get('demo_compile',''))")
 echo "== demo compile command: $CMD"
 cd $W/out && (eval "$CMD" >/dev/null 2>&1 || g++ -std=c++17 -I$W/src demo.cpp -o demo -pthread) ; DEMO=$(ls -t $W/out | grep -v -E "\.(cpp|json|diff|txt|log)$" | head -1)
 echo "== demo WITH the change"; timeout 300 ./$DEMO >/dev/null 2>&1; echo "exit $?"
-cd $W && git stash -q; cd $W/out && (eval "$CMD" >/dev/null 2>&1 || g++ -std=c++17 -I$W/src demo.cpp -o demo -pthread)
+cd $W && git apply -R out/patch.diff; cd $W/out && (eval "$CMD" >/dev/null 2>&1 || g++ -std=c++17 -I$W/src demo.cpp -o demo -pthread)
 echo "== demo WITHOUT the change"; timeout 300 ./$DEMO >/dev/null 2>&1; echo "exit $?"
-cd $W && git stash pop -q
+cd $W && git apply out/patch.diff
 } > $LOG 2>&1
 cat $LOG
 mkdir -p $OUT && cp $W/out/patch.diff $W/out/demo.cpp $W/out/meta.json $OUT/ && cp $LOG $OUT/confirmation.log
